@@ -877,10 +877,10 @@ impl Sim {
     }
 
     pub fn step_random(&mut self) {
-        if self.adversarial && self.rng.chance(1, 8) {
+        if self.adversarial && self.rng.chance(1, 6) {
             let nn = self.nodes.len() as u64;
             let i = self.rng.below(nn) as usize;
-            match self.rng.below(5) {
+            match self.rng.below(6) {
                 0 => {
                     // a membership change applied out of the blue (not from the log), on the leader mostly
                     let t = self.leader().filter(|_| self.rng.chance(2, 3)).unwrap_or(i);
@@ -892,6 +892,21 @@ impl Sim {
                         self.call(t, Call::TransferLeader(peer));
                     }
                     self.call(t, Call::ApplyConfChange(cc));
+                }
+                1 | 2 => {
+                    // a transfer to a voter, then at once a change that demotes / removes / re-adds it
+                    if let Some(t) = self.leader() {
+                        let lid = self.nodes[t].id;
+                        let voters: Vec<u64> = self.nodes[t].driver.as_ref().map_or(vec![], |d| d.node.raft.prs().conf().voters().ids().iter().filter(|v| *v != lid).collect());
+                        if !voters.is_empty() {
+                            let peer = *self.rng.pick(&voters);
+                            self.call(t, Call::TransferLeader(peer));
+                            let ty = *self.rng.pick(&[2u64, 2, 1, 0]);
+                            let tr = *self.rng.pick(&[0u64, 0, 1, 2]);
+                            let cc = cc_v2(tr, &[(ty, peer)]);
+                            self.call(t, Call::ApplyConfChange(cc));
+                        }
+                    }
                 }
                 _ => {
                     if let Some(m) = self.adversarial_msg(i) {
